@@ -226,6 +226,58 @@ func c11MoreScenarios() []c11Scenario {
 		verdict: func(w *c11World) (bad []string) { return nil },
 		observe: func(w *c11World) string { return repoGone(w) }})
 
+	// S2j: deleting an instance (acknowledged at once, finished by a background goroutine) against the creation of an
+	// instance with the same name. Sequentially the creation is either refused (name still taken) or yields a new instance
+	// that stays; a creation acknowledged while the old instance is still being removed must not lose the new instance.
+	sc = append(sc, c11Scenario{name: "S2j:repo:delete-instance||new-instance:same-name", setup: func() (*c11World, error) {
+		root, err := vsrv.NewRepo() // the root stays open: instances cannot be created on a committed node
+		w := &c11World{root: root, nodes: map[string]string{}, resp: make([]vsrv.Resp, 4)}
+		if err == nil {
+			err = vsrv.NewInstance(root, "keyvalue", "kv", nil)
+		}
+		if err == nil {
+			vsrv.PostS("node/"+w.root+"/kv/key/old", "old")
+			for _, r := range datastore.VerifDump(w.root).Repos {
+				if r.Root == w.root {
+					w.nodes["instances-before"] = strings.Join(r.Instances, ",")
+				}
+			}
+		}
+		return w, err
+	},
+		bodies: func(w *c11World) []func() {
+			return []func(){
+				func() { w.resp[0] = apiResp(datastore.DeleteDataByName(dvid.UUID(w.root), "kv", "")) },
+				func() {
+					w.resp[1] = vsrv.PostS("repo/"+w.root+"/instance", `{"typename":"keyvalue","dataname":"kv"}`)
+				}}
+		},
+		verdict: func(w *c11World) (bad []string) { return nil },
+		observe: func(w *c11World) string {
+			state := func(d datastore.VerifState) string {
+				for _, r := range d.Repos {
+					if r.Root != w.root {
+						continue
+					}
+					for _, in := range r.Instances {
+						if strings.HasPrefix(in, "kv:") {
+							if strings.Contains(","+w.nodes["instances-before"]+",", ","+in+",") {
+								return "old-instance"
+							}
+							return "new-instance"
+						}
+					}
+					return "no-instance"
+				}
+				return "no-repo"
+			}
+			stored := "reload-fails"
+			if re, err := datastore.VerifReloadDump(w.root); err == nil {
+				stored = state(re)
+			}
+			return fmt.Sprintf("codes=%s live=%s stored=%s old-key=%d", codes(w, 2), state(datastore.VerifDump(w.root)), stored, vsrv.Get("node/"+w.root+"/kv/key/old").Code)
+		}})
+
 	// ---- neuronjson ----
 	njWorld := func() (*c11World, error) {
 		root, err := vsrv.NewRepo()
